@@ -3,6 +3,8 @@ package main
 // CB — every criterion builder is combined into the selection predicate.
 
 import (
+	"strings"
+	"sort"
 	"go/ast"
 	"go/token"
 	"go/types"
@@ -46,13 +48,51 @@ func runCB(c *Ctx, s *Sink) {
 			}
 		}
 	}
-	if root == nil {
+	// roots: the builders whose result is handed to the filtering functions of the package (the functions calling
+	// FilterOn/DivideOn), plus the exported entry point other commands use
+	roots := map[*ast.FuncDecl]bool{}
+	if root != nil {
+		roots[root] = true
+	}
+	for _, f := range p.Syntax {
+		for _, d := range f.Decls {
+			fd, ok := d.(*ast.FuncDecl)
+			if !ok || fd.Body == nil {
+				continue
+			}
+			filters := false
+			ast.Inspect(fd.Body, func(n ast.Node) bool {
+				if call, ok := n.(*ast.CallExpr); ok {
+					if fn := callee(info, call); fn != nil && fn.Pkg() != nil && strings.HasSuffix(fn.Pkg().Path(), "/pkg/obiiter") && (fn.Name() == "FilterOn" || fn.Name() == "DivideOn") {
+						filters = true
+					}
+				}
+				return true
+			})
+			if !filters {
+				continue
+			}
+			ast.Inspect(fd.Body, func(n ast.Node) bool {
+				if call, ok := n.(*ast.CallExpr); ok {
+					if b, ok := builders[callee(info, call)]; ok {
+						roots[b] = true
+					}
+				}
+				return true
+			})
+		}
+	}
+	if len(roots) == 0 {
 		s.Undecided(nil, "pkg/obitools/obigrep.CLISequenceSelectionPredicate", 0, "root builder not found")
 		return
 	}
 	// reachability through calls between builders
-	reach := map[types.Object]bool{info.Defs[root.Name]: true}
-	work := []*ast.FuncDecl{root}
+	reach := map[types.Object]bool{}
+	var work []*ast.FuncDecl
+	for r := range roots {
+		reach[info.Defs[r.Name]] = true
+		work = append(work, r)
+	}
 	for len(work) > 0 {
 		fd := work[0]
 		work = work[1:]
@@ -69,7 +109,7 @@ func runCB(c *Ctx, s *Sink) {
 		})
 	}
 	for o, fd := range builders {
-		if fd == root {
+		if roots[fd] {
 			continue
 		}
 		key := funcName(p, fd)
@@ -79,7 +119,40 @@ func runCB(c *Ctx, s *Sink) {
 			s.Fail(nil, key, fd.Pos(), "criterion builder is never combined into CLISequenceSelectionPredicate: the options it reads are accepted on the command line and ignored")
 		}
 	}
-	// shape of the root: p := B(); p = p.And(B()) ...; if inv { p = p.Not() }; return p
+	// shape of the assembling function (the reachable builder holding the longest And chain; the root itself, or the
+	// helper it delegates to): p := B(); p = p.And(B()) ...; [if inv { p = p.Not() }]; return p
+	nAnd := func(fd *ast.FuncDecl) int {
+		n := 0
+		ast.Inspect(fd.Body, func(m ast.Node) bool {
+			if call, ok := m.(*ast.CallExpr); ok {
+				if sel, ok := call.Fun.(*ast.SelectorExpr); ok && sel.Sel.Name == "And" {
+					if b, ok := ast.Unparen(call.Args[0]).(*ast.CallExpr); ok {
+						if _, isB := builders[callee(info, b)]; isB {
+							n++
+						}
+					}
+				}
+			}
+			return true
+		})
+		return n
+	}
+	best := -1
+	var names []string
+	byName := map[string]*ast.FuncDecl{}
+	for o, fd := range builders {
+		if reach[o] {
+			names = append(names, fd.Name.Name)
+			byName[fd.Name.Name] = fd
+		}
+	}
+	sort.Strings(names)
+	for _, nm := range names {
+		if k := nAnd(byName[nm]); k > best {
+			best, root = k, byName[nm]
+		}
+	}
+	rootIsEntry := roots[root]
 	var acc types.Object
 	lastAnd, notPos, retPos := token.NoPos, token.NoPos, token.NoPos
 	okShape := true
@@ -134,14 +207,14 @@ func runCB(c *Ctx, s *Sink) {
 	switch {
 	case !okShape:
 		s.Fail(nil, key, root.Pos(), why)
-	case notPos == token.NoPos:
+	case notPos == token.NoPos && rootIsEntry:
 		s.Fail(nil, key, root.Pos(), "the inversion of the match (-v) is never applied")
-	case notPos < lastAnd:
+	case notPos != token.NoPos && notPos < lastAnd:
 		s.Fail(nil, key, root.Pos(), "the inversion (-v) is applied before the last criterion is combined: that criterion is not inverted")
-	case retPos < notPos:
+	case notPos != token.NoPos && retPos < notPos:
 		s.Fail(nil, key, root.Pos(), "return precedes the inversion")
 	default:
-		s.Pass(nil, key, root.Pos(), "criteria combined with And only, inversion applied after the last And, accumulated predicate returned")
+		s.Pass(nil, key, root.Pos(), "criteria combined with And only, inversion (when applied here; rule GV otherwise) after the last And, accumulated predicate returned")
 	}
 }
 
